@@ -14,6 +14,13 @@ LEVEL = "proof"
 SALT = 13
 
 
+GLR_ONLY = [
+    ("R: S Tb;\nS: A Ta | Ta;\nA: EMPTY;\nterminals\nTa: '(';\nTb: 'x';\n", [" ( x", "( x", "\n\u00a0( x "]),
+    ("S: S S | Ta | EMPTY;\nterminals\nTa: 'a';\n", ["a", " a a", "a  a "]),
+    ("E: E Tp E | Tn;\nterminals\nTp: '+';\nTn: /\\d+/;\n", ["1 + 2 + 3", " 1+2 ", "1 +\n 22 + 3"]),
+]
+
+
 def extra(n, i, rtree, inp, mt):
     return ["spans_ok_b %s (%s)" % (inp, rtree)]
 
@@ -84,9 +91,16 @@ def run(rep, tier, seed):
     for tag, r, texts in items:
         gcases.append(Case("G" + tag, r.case.grammar, [t if len(t.encode()) <= 40 else "" for t in texts], algo="GLR", table="LALR_RN", run="GLR",
                            flags=dict(r.case.flags, ps=0, pse=0, match=0, partial=0), meta=dict(tag=tag)))
+    # ambiguous grammars (rejected by the LR side) that exercise packed alternatives with different extents; the first
+    # one is the witness of the recorded finding glr-spans-shared-extent
+    gitems = list(items)
+    for k, (gtxt, texts) in enumerate(GLR_ONLY):
+        gcases.append(Case("Gamb%d" % k, gtxt, texts, algo="GLR", table="LALR_RN", run="GLR",
+                           flags=dict(ps=0, pse=0, go=0, skipws=1, match=0, partial=0), meta=dict(tag="amb%d" % k)))
+        gitems.append(("amb%d" % k, None, texts))
     gres = run_cases(gcases, "c13g")
     gjobs = []
-    for gr, (tag, r, texts) in zip(gres, items):
+    for gr, (tag, r, texts) in zip(gres, gitems):
         if gr.status != "OK" or gr.dump is None:
             continue
         for i, text in enumerate(texts):
